@@ -6,6 +6,7 @@
 import RevalModel.Lemmas.NoPanic
 import RevalModel.Lemmas.Exact
 import RevalModel.Impl.RuleSet
+import RevalModel.Lemmas.InRange
 
 namespace Reval.C01
 
@@ -66,6 +67,41 @@ theorem time_arith_exact (o : Oracle) (a b : Int) :
       applyBin o .sub (.dateTime a) (.dateTime b) = .ok (.duration (a - b)) ∧ Time.durInRange (a - b) = true) :=
   ⟨dt_add_dur_exact o a b, dt_sub_dur_exact o a b, dur_sub_dur_exact o a b,
    fun ha hb => ⟨by simp [applyBin, Impl.sub], dt_sub_dt_inRange a b ha hb⟩⟩
+
+/-- "a numeric, date or duration result that lies outside the range of its type is [never produced]": whatever
+    an evaluation returns is representable — every Int at every depth an i128, every Decimal a 96-bit mantissa
+    with scale ≤ 28, every DateTime / Duration within chrono's bounds — for every expression whose literals are
+    Rust values, every input, symbol table, user-function behaviour and oracle answer that are Rust values, and
+    every starting cache.  (With the exactness theorems above: the result is the mathematical one, or an error.) -/
+theorem results_in_range (env : Env) (he : env.InRange) (rp : List Nat) (e : Expr) (st : St)
+    (hl : e.litsInRange = true) (hs : st.InRange) (v : Value) (h : (eval env rp e st).1 = .ok v) :
+    v.inRange = true := (eval_inRange he rp e st hl hs).1 v h
+
+theorem evaluateExpr_in_range (o : Oracle) (ho : o.InRange) (e : Expr) (facts : Value)
+    (hf : facts.inRange = true) (hl : e.litsInRange = true) (v : Value) (h : evaluateExpr o e facts = .ok v) :
+    v.inRange = true :=
+  (eval_inRange (env := ⟨facts, [], [], o⟩) ⟨hf, by simp [lookup], by simp [lookup], ho⟩ [] e St.init hl
+    St.init_inRange).1 v h
+
+/-- the same for every outcome of `RuleSet::evaluate_value` (one cache threaded through all rules) -/
+theorem ruleset_results_in_range (env : Env) (he : env.InRange) (rules : List Expr)
+    (hl : ∀ e ∈ rules, e.litsInRange = true) :
+    ∀ r ∈ (evaluateValue env rules).1, ∀ v, r = .ok v → v.inRange = true :=
+  evalRules_inRange he rules 0 St.init hl St.init_inRange
+
+/-- the operators alone: in-range operands never give an out-of-range value -/
+theorem operators_stay_in_range (o : Oracle) (ho : o.InRange) :
+    (∀ op v r, v.inRange = true → applyUn o op v = .ok r → r.inRange = true) ∧
+    (∀ op a b r, a.inRange = true → b.inRange = true → applyBin o op a b = .ok r → r.inRange = true) :=
+  ⟨fun _ _ _ hv h => applyUn_inRange ho hv h, fun _ _ _ _ ha hb h => applyBin_inRange ho ha hb h⟩
+
+/-! non-vacuity: the hypotheses are satisfiable (empty oracle, extreme operands), and the conclusion is not
+    trivial (`Value.inRange` is false of what a wrapped / unchecked result would be) -/
+example : Oracle.empty.InRange := by intro op args v h; simp [Oracle.empty] at h
+example : (Value.vec [.int I128.max, .dec ⟨true, Dec.maxMant, 28⟩, .dateTime Time.dtMax, .duration (-Time.durMax)]).inRange = true := by decide
+example : (Value.int (I128.max + 1)).inRange = false := by decide
+example : (Value.vec [.dec ⟨false, 2 ^ 96, 0⟩]).inRange = false := by decide
+example : (Value.map [("k".toList, .duration (Time.durMax + 1))]).inRange = false := by decide
 
 /-! non-vacuity: the inputs that panicked / wrapped / saturated before the `fix:` commits are errors -/
 example : applyBin Oracle.empty .add (.int I128.max) (.int 1) = .err (.outOfBounds (.int I128.max)) := by decide
